@@ -144,9 +144,10 @@ V0 = util.LocalVersion('1.0.0')
 V1 = util.LocalVersion('1.0.1')
 
 
-def fill(db, bump):
+def fill(db, bump, off=0):
+    '''off: the stored run ids are the model's run + off (already applied by TLC)'''
     for x in db:
-        ver = V1 if bump and x['run'] >= 3 else V0
+        ver = V1 if bump and x['run'] - off >= 3 else V0
         tabs, idx = DBI().tables, DBI().indices
         ti = util.append(x['t'], tabs.target, idx.target)[1]
         ki = util.append(x['k'], tabs.task, idx.task)[1]
@@ -252,7 +253,7 @@ def run_db(job):
     DBI().open()
     try:
         db = list(reversed(job['db'])) if job['rev'] else list(job['db'])
-        fill(db, job['bump'])
+        fill(db, job['bump'], job.get('off', 0))
         tabs = tables()
         steps = [{'ev': s['ev'], 'args': s['args'], 'obs': DO[s['ev']](s['args'])} for s in job['steps']]
     finally:
